@@ -157,6 +157,10 @@ def keyStep {α : Type} (key uniq : α → Str) (acc : PyDict Str α) (x : α) :
 def keyedValues {α : Type} (key uniq : α → Str) (l : List α) : List α :=
   PyDict.values (l.foldl (keyStep key uniq) [])
 
+/-- `.keys()` of that dict -/
+def keyedKeys {α : Type} (key uniq : α → Str) (l : List α) : List Str :=
+  PyDict.keys (l.foldl (keyStep key uniq) [])
+
 /-- `allowed_values` as the factory reads them: the text of every `allowedValue`; an element
     without text is the empty string for the string types and is skipped for the others -/
 def allowedTexts (isStr : Bool) (l : List (Option Str)) : List Str :=
